@@ -145,7 +145,7 @@ const NAME_POOL_ASCII: &[&str] = &["A", "B", "Low Sec", "e", "JP", "T op", "x", 
 fn random_formula(rng: &mut Rng, budget: &mut usize, depth: usize, pool: &[&str], n_names: usize) -> Pol {
     if *budget <= 1 || depth >= 4 || rng.chance(1, 4) {
         *budget = budget.saturating_sub(1);
-        if depth > 0 && rng.chance(1, 20) {
+        if depth > 0 && rng.chance(1, 10) {
             return Pol::All;
         }
         let d = pool[rng.below(n_names.min(pool.len()))];
